@@ -14,7 +14,13 @@ Definition file_of_v (v : val) : file :=
   if is_tag (vnth 0 v) "file" then Some (vB (vnth 1 v)) else None.
 (* (tsame) | (tabsent) | (tfile b) *)
 Definition dest_of_v (v : val) : dest :=
-  if is_tag (vnth 0 v) "same" then DSame else DOther (file_of_v v).
+  resolve_dest
+    (if is_tag (vnth 0 v) "same" then PSame
+     else if is_tag (vnth 0 v) "symlink" then PSymlink
+     else if is_tag (vnth 0 v) "hardlink" then PHardlink
+     else if is_tag (vnth 0 v) "unclean" then PUnclean
+     else if is_tag (vnth 0 v) "relative" then PRelative
+     else POther (file_of_v v)).
 
 Definition v_res (r : res unit) : val := match r with Ok _ => VT "nil" | Err e => v_err e end.
 Definition v_xres (r : xres) : val :=
@@ -70,7 +76,7 @@ Definition index_resolves (o : xopts) (idxbytes : bytes) (hl : N) (blocks : list
 Definition wrap_fs (input : val) : fs2 :=
   let mode := vN (vnth 1 input) in
   let x := vB (vnth 2 input) in
-  if mode =? 3 then mkfs (Some x) DSame
+  if (mode =? 3) || (mode =? 5) || (mode =? 6) then mkfs (Some x) DSame
   else if mode =? 2 then mkfs (Some x) (DOther (Some (vB (vnth 5 input))))
   else mkfs (Some x) (DOther None).
 
@@ -94,7 +100,8 @@ Definition prop_xwrap (input obs : val) : val :=
   let expect := vnth 4 input in
   let ok := is_tag (vnth 0 obs) "nil" in
   let out := match file_of_v (vnth 2 obs) with Some b => b | None => [] end in
-  if mode =? 3 then VT "ok"      (* the source was truncated by os.Create: nothing is claimed *)
+  if (mode =? 3) || (mode =? 5) || (mode =? 6)
+  then VT "ok"      (* the source was truncated by os.Create: nothing is claimed *)
   else if ok && negb (bytes_eqb (take (51 + blen x) out)
                                 (pragma ++ enc_v2hdr (new_header (blen x)) ++ x))
   then fail "wrap-payload-not-verbatim"
@@ -153,7 +160,7 @@ Definition prop_xextract (input obs : val) : val :=
   let o := v_xopts (vnth 0 input) in
   let hdr := hdr_lookup (vL (vnth 3 input)) in
   let a := vB (vnth 1 input) in
-  let same := is_tag (vnth 0 (vnth 2 input)) "same" in
+  let same := is_same (dest_of_v (vnth 2 input)) in
   let expect := vnth 4 input in
   let ok := is_tag (vnth 0 obs) "nil" in
   let srcf := file_of_v (vnth 1 obs) in
@@ -277,4 +284,76 @@ Definition prop_xwrapmany (input obs : val) : val :=
   else if negb (vN (vnth 2 obs) =? k) then fail "harness-expectation-mismatch"
   else if negb (vN (vnth 3 obs) =? k) then fail "wrap-index-does-not-resolve-sections"
   else if negb (vN (vnth 4 obs) =? k) then fail "wrap-index-wrong"
+  else VT "ok".
+
+(* ---- xattach: (file, index bytes, offset, expect) ------------------------------------------------
+   expect: (twindow doff dsize) when the file is a CARv2 holding dsize bytes at doff and the offset
+   lies at or after doff+dsize *)
+Definition run_xattach (input : val) : val :=
+  match idx_read (vB (vnth 1 input)) with
+  | Ok (i, []) =>
+    let '(r, f) := attach_index (file_of_v (vnth 0 input)) i (vN (vnth 2 input)) in
+    VL [v_res r; v_file f]
+  | _ => VT "harness-bad-index"
+  end.
+
+Definition prop_xattach (input obs : val) : val :=
+  let a := match file_of_v (vnth 0 input) with Some b => b | None => [] end in
+  let ib := vB (vnth 1 input) in
+  let off := vN (vnth 2 input) in
+  let expect := vnth 3 input in
+  let ok := is_tag (vnth 0 obs) "nil" in
+  let out := match file_of_v (vnth 1 obs) with Some b => b | None => [] end in
+  if negb ok then
+    (if off <? two63 then fail "attach-failed" else
+     if bytes_eqb out a then VT "ok" else fail "attach-failed-but-file-changed")
+  else if negb (bytes_eqb (take (blen ib) (drop off out)) ib) then fail "attach-index-not-at-offset"
+  else if negb (bytes_eqb (take off out) (take off a ++ zerosN (off - blen a)))
+  then fail "attach-touched-bytes-before-offset"
+  else if negb (bytes_eqb (drop (off + blen ib) out) (drop (off + blen ib) a))
+  then fail "attach-touched-bytes-after-index"
+  else if is_tag (vnth 0 expect) "window" then
+    let doff := vN (vnth 1 expect) in
+    let dsize := vN (vnth 2 expect) in
+    if bytes_eqb (take dsize (drop doff out)) (take dsize (drop doff a)) && bytes_eqb (take 51 out) (take 51 a)
+    then VT "ok" else fail "attach-changed-payload"
+  else VT "ok".
+
+(* ---- xseq: (x, ops, hdr table, c, expect) --------------------------------------------------------
+   op = (twrap opts) | (textract opts) | (treplace opts roots) | (tattach indexbytes off);
+   expect: (tblocks blocks) when x = enc_payload roots blocks for some roots.
+   obs = ((error ...) final file) *)
+Definition xop_of_v (v : val) : xop :=
+  if is_tag (vnth 0 v) "wrap" then OWrap (v_xopts (vnth 1 v))
+  else if is_tag (vnth 0 v) "extract" then OExtract (v_xopts (vnth 1 v))
+  else if is_tag (vnth 0 v) "replace" then OReplace (v_xopts (vnth 1 v)) (roots_of_v (vnth 2 v))
+  else match idx_read (vB (vnth 1 v)) with
+       | Ok (i, _) => OAttach i (vN (vnth 2 v))
+       | Err _ => OAttach (IdxSorted []) (vN (vnth 2 v))
+       end.
+
+Definition run_xseq (input : val) : val :=
+  let hdr := hdr_lookup (vL (vnth 2 input)) in
+  let c := vN (vnth 3 input) in
+  let '(rs, a) := xrun hdr sort_by_digest (fun _ => c) (map xop_of_v (vL (vnth 1 input))) (vB (vnth 0 input)) in
+  VL [VL (map v_xres rs); v_file (Some a)].
+
+Definition prop_xseq (input obs : val) : val :=
+  let hdr := hdr_lookup (vL (vnth 2 input)) in
+  let c := vN (vnth 3 input) in
+  let expect := vnth 4 input in
+  let ops := map xop_of_v (vL (vnth 1 input)) in
+  let x := vB (vnth 0 input) in
+  if is_tag (vnth 0 expect) "blocks" then
+    if negb (seq_guard hdr sort_by_digest (fun _ => c) ops x) then VT "ok"
+    else
+      match file_of_v (vnth 1 obs) with
+      | Some out =>
+        match innermost_sections hdr 8 out with
+        | Some secs => if bytes_eqb secs (enc_sections (vblocks (vnth 1 expect))) then VT "ok"
+                       else fail "sequence-changed-the-block-sequence"
+        | None => fail "sequence-left-an-unreadable-file"
+        end
+      | None => fail "sequence-left-an-unreadable-file"
+      end
   else VT "ok".
